@@ -190,7 +190,12 @@ func (s *st) authorize(symbolicChallenge bool) bool {
 	if s.challenge != "" {
 		extra.Set("code_challenge", s.challenge)
 	}
-	switch zz.Choice("method", 4) {
+	switch zz.Choice("method", 7) {
+	case 4, 5, 6:
+		// non-canonical spellings: the method names are case-sensitive ("S256", "plain"); whatever the
+		// authorization endpoint accepts is the method that binds the code
+		s.method = []string{"s256", "PLAIN", "Plain"}[zz.Choice("spelling", 3)]
+		extra.Set("code_challenge_method", s.method)
 	case 0:
 		s.method = ""
 	case 1:
